@@ -411,6 +411,12 @@ fn create(page_pool: &PagePool, o: &crate::Options) -> anyhow::Result<(File, Flo
     crate::verif::sched::point("create.lock", &|| true);
     let flock = Flock::lock(&o.path, ".lock")?;
 
+    // Another instance may have created (and even populated) the database between the emptiness
+    // check and the moment the lock was acquired. Never re-initialize an existing database.
+    if o.path.join("meta").exists() {
+        return Ok((db_dir_fd, flock));
+    }
+
     #[cfg(feature = "verif")]
     crate::verif::sched::point("create.meta", &|| true);
     let meta_fd = std::fs::File::create(o.path.join("meta"))?;
